@@ -713,6 +713,43 @@ def _run_labelwise(case, r):
             a = sigs[1 % len(sigs)]
             got = _apply(r, cell, model, "2d", a)
             regionwise(cell, got, [ref_affine(a, wS[i], wO[i]) for i in range(L)], a, dofs=dofs, parameters=vec)
+        # signals at another resolution than the label map (the model resizes its labels): every
+        # sequence of up to three calls on ONE model object over the resolutions below returns, at
+        # each step, what a fresh model returns for that signal; for exact refinement the labelled
+        # regions are the refined regions, so the region-wise clause is evaluated there too
+        H, W = shape
+        resolutions = [(H, W), (2 * H, 2 * W), (max(H - 1, 1), W + 1), (H + 1, max(2 * W - 1, 1))]
+
+        def sig_at(res):
+            i, j = np.meshgrid(np.arange(res[0]), np.arange(res[1]), indexing="ij")
+            return 0.25 * ((3 * i + 5 * j) % 7).astype(float) - 0.5
+
+        def mkmodel():
+            return darsia.HeterogeneousLinearModel(labels.copy(), scaling=list(S), offset=list(O))
+
+        fresh_at = {}
+        usable = True
+        for res in resolutions:
+            try:
+                fresh_at[res] = np.asarray(mkmodel()(sig_at(res)))
+            except Exception as e:
+                usable = False
+                r.fail("C14/labelwise/hetlinear/resolution/usable", "the label-wise linear model can be applied to a 2-D signal at another resolution than its label map", resolution=res, labels_shape=shape, exception=f"{type(e).__name__}: {e}")
+        if usable:
+            fine = np.repeat(np.repeat(labels, 2, axis=0), 2, axis=1)
+            a = sig_at(resolutions[1])
+            okr = all(np.array_equal(fresh_at[resolutions[1]][fine == lab], ref_affine(a, S[i], O[i])[fine == lab]) for i, lab in enumerate(uniq))
+            r.check(okr, "C14/labelwise/hetlinear/resolution/refined-regions", "on a signal refined by 2 the model applies each label's parameters on the refined region of that label", labels=labels)
+            for n in (2, 3):
+                for seq in itertools.product(range(len(resolutions)), repeat=n):
+                    if len(set(seq)) == 1:
+                        continue
+                    model = mkmodel()
+                    for step, k in enumerate(seq):
+                        res = resolutions[k]
+                        got = np.asarray(model(sig_at(res)))
+                        if not r.check(_same(got, fresh_at[res]), "C14/labelwise/hetlinear/resolution/history", "a model object that has seen signals of other resolutions returns what a fresh model returns", sequence=[resolutions[q] for q in seq], step=step, labels_shape=shape):
+                            break
     elif kind in ("het-clip", "het-scaling", "het-linear"):
         k = kind[4:]
         limg = darsia.Image(labels.copy(), space_dim=2, dimensions=[1.0, 1.5], scalar=True)
